@@ -17,7 +17,7 @@ pub fn property() -> Property {
     Property {
         id: "C08",
         level: "exploration",
-        rule: "Bounded-exhaustive configuration matrix: scheme {http, https} x host {domain, IDN, IPv4, IPv6} x port {absent, scheme default written explicitly, non-default, the other scheme's default} x path {empty, /, deep, percent-encoded} x query {none, some} x fragment {none, some} x URL userinfo {none, user, user:pass} x proxy {none, http, https} x proxy userinfo {none, some} x proxy port {default, explicit} x caller-set Host header {none, bogus}. Observed: the address handed to the connector (hook H1 dial log: scheme, host, port, TLS name) and the request bytes received by the peer - for https-via-proxy the request is decrypted by a live TLS server behind the scripted CONNECT reply (bridge mode, certificate checks waived for this property). Oracle: reference function (URL, proxy settings) -> (dial host, port, target form, Host) written from the statement: proxy if one is selected else URL host + effective port; origin-form for direct and tunnelled, absolute-form for http via proxy; no fragment, no userinfo in the target; exactly one Host == host[:non-default port] (IPv6 bracketed) for direct and tunnelled requests - whatever Host fields the caller supplied {none, one, two on the request, one on the session + one appended}. The 'redirected' generator judges the second request of a 307 (Location plain, or carrying credentials and a fragment) and both requests of a second send() of the same PreparedRequest with the same reference. Non-trivial: every configuration; distinct = hash(URL, proxy URL, caller Host).",
+        rule: "Bounded-exhaustive configuration matrix: scheme {http, https} x host {domain, IDN, IPv4, IPv6} x port {absent, scheme default written explicitly, non-default, the other scheme's default} x path {empty, /, deep, percent-encoded} x query {none, some, present but empty} x fragment {none, some} x URL userinfo {none, user, user:pass} x proxy {none, http, https} x proxy userinfo {none, some} x proxy port {default, explicit} x caller-set Host header {none, bogus}. Observed: the address handed to the connector (hook H1 dial log: scheme, host, port, TLS name) and the request bytes received by the peer - for https-via-proxy the request is decrypted by a live TLS server behind the scripted CONNECT reply (bridge mode, certificate checks waived for this property). Oracle: reference function (URL, proxy settings) -> (dial host, port, target form, Host) written from the statement: proxy if one is selected else URL host + effective port; origin-form for direct and tunnelled, absolute-form for http via proxy; no fragment, no userinfo in the target; exactly one Host == host[:non-default port] (IPv6 bracketed) for direct and tunnelled requests - whatever Host fields the caller supplied {none, one, two on the request, one on the session + one appended}. The 'redirected' generator judges the second request of a 307 (Location plain, or carrying credentials and a fragment) and both requests of a second send() of the same PreparedRequest with the same reference. Non-trivial: every configuration; distinct = hash(URL, proxy URL, caller Host).",
         assumptions: &["the Host field of a plain-http request sent through a proxy is recorded but not judged (the statement fixes it for direct and tunnelled requests only)", "tunnelled rows: the proxy side of CONNECT is judged by C12, here only what travels inside the tunnel"],
         min_nontrivial: |t| t.pick(3_000, 20_000),
         gens,
@@ -29,7 +29,8 @@ pub fn property() -> Property {
 const HOSTS: [&str; 4] = ["origin.test", "bücher.test", "192.0.2.7", "[2001:db8::7]"];
 const PORTS: [u8; 4] = [0, 1, 2, 3]; // absent, default explicit, non-default, the OTHER scheme's default (http://h:443, https://h:80)
 const PATHS: [&str; 5] = ["", "/", "/a/b/c.txt", "/p%20q/%C3%BC/x%2Fy", "/users/@me/x"];
-const QUERIES: [&str; 3] = ["", "?k=v&x=%26", "?email=joe@elsewhere.test&x=1"];
+// (a present-but-empty query is part of the target: `/p?` is not `/p`)
+const QUERIES: [&str; 4] = ["", "?k=v&x=%26", "?email=joe@elsewhere.test&x=1", "?"];
 const FRAGMENTS: [&str; 2] = ["", "#frag/ment?x"];
 const USERINFO: [&str; 5] = ["", "user@", "user:p%40ss@", ":tok%40en@", "user:@"];
 const PROXIES: [&str; 3] = ["", "http", "https"];
